@@ -1,5 +1,5 @@
-//go:build verif
-// +build verif
+//go:build verif && verifhooks
+// +build verif,verifhooks
 
 package ed25519
 
